@@ -62,6 +62,10 @@ pub fn drive(args: &HashMap<String, String>) {
     for (p, _) in crate::p_compile::use_ladder(true) {
         progs.push(p);
     }
+    // ModLadder: the parameter reaches the result through a nested (mod ..) or a function used as a value
+    for (p, _) in crate::p_compile::mod_ladder() {
+        progs.push(p.rename_vars(&lower));
+    }
     // DepthLadder: the parameter is used at the bottom of expressions nested up to the evaluator's depth limit and beyond
     // (TLC's JSON reader stops at 255 levels of nesting: two per addition)
     for (p, _) in crate::p_compile::depth_ladder(true) {
